@@ -221,7 +221,10 @@ func genProgram(rng *hx.Rng, c *corpus, mode genMode, forcedInput int, forcedMut
 		o := g.objs[k]
 		switch o.kind {
 		case 'f':
-			switch rng.Intn(10) {
+			switch rng.Intn(11) {
+			case 10:
+				// allowed in every mode: append must never write through a view of the input
+				g.emit(op{code: 'A', o: k})
 			case 0:
 				d := g.newID()
 				if d == k {
